@@ -1,15 +1,12 @@
 package zz
-import ("testing";"fmt";"github.com/bytedance/sonic")
+import ("testing";"fmt";"encoding/json";"github.com/bytedance/sonic")
+type T struct{ N json.Number `json:"n"` }
 func TestP(t *testing.T){
-  api:=sonic.Config{CopyString:true,UseNumber:true}.Froze()
-  buf:=[]byte(`{"a":12345,"b":[1.5,"s"]}`)
-  var v interface{}
-  err:=api.Unmarshal(buf,&v)
-  for i:=range buf{buf[i]='#'}
-  fmt.Println(v,err)
-  var w struct{A interface{} `json:"a"`}
-  buf=[]byte(`{"a":12345,"b":[1.5,"s"]}`)
-  err=api.Unmarshal(buf,&w)
-  for i:=range buf{buf[i]='#'}
-  fmt.Println(w,err)
+  for _, cont := range []string{`123"}`, `1e5" }`, `x"}`, `"}`, `12`} {
+    full := []byte(`{"N":"` + cont)
+    in := full[:6]
+    var v T
+    err := sonic.UnmarshalString(string(in), &v)
+    fmt.Printf("cont=%q -> %+v err=%v\n", cont, v, err)
+  }
 }
